@@ -1,10 +1,18 @@
 ------------------------------ MODULE RngCalls ------------------------------
-(* Lock sections on the instance RNG per API call (api.rs, encrypted_header.rs). *)
-EXTENDS Naturals
-Sections(call) == IF call \in {"encrypt", "encrypt_big", "header_md"} THEN 2 ELSE 1
-Draws(call, k) == CASE call = "encaps" -> 2          \* S, then shuffling
-                    [] call \in {"encrypt", "encrypt_big", "header_md"} -> IF k = 1 THEN 2 ELSE 1   \* second section: the nonce
-                    [] call = "header" -> 2
-                    [] call = "decaps" -> 1
+(* Lock sections on the instance RNG per API call.                              *)
+(*                                                                             *)
+(* Documented: what api.rs / encrypted_header.rs do on the pinned tree.         *)
+(* Measured:   how many times each call takes the lock when it runs ALONE on    *)
+(* the tree under test (harness `conc --measure`, file named by RNGCALLS).      *)
+(* How many lock sections a call is made of is an implementation choice, not a *)
+(* property: the interleavings are enumerated for the sections the code has.   *)
+(* A difference from the documented numbers is reported as MODEL-DRIFT.         *)
+EXTENDS Naturals, Json, IOUtils
+Documented(call) == IF call \in {"encrypt", "encrypt_big", "header_md"} THEN 2 ELSE 1
+Measured == IF "RNGCALLS" \in DOMAIN IOEnv THEN JsonDeserialize(IOEnv.RNGCALLS) ELSE [none |-> 0]
+Sections(call) == IF call \in DOMAIN Measured THEN Measured[call] ELSE Documented(call)
+Draws(call, k) == CASE call = "encaps" /\ k = 1 -> 2          \* S, then shuffling
+                    [] call \in {"encrypt", "encrypt_big", "header_md"} /\ k = 1 -> 2
+                    [] call = "header" /\ k = 1 -> 2
                     [] OTHER -> 1
 =============================================================================
